@@ -113,7 +113,7 @@ func famRangeInstant(sc *scn.Scenario, em func(vt.Ev)) {
 		em(vt.Ev{"ev": "skip", "why": "not applicable", "q": q})
 		return
 	}
-	runtime.GOMAXPROCS(sc.CfgInt("procs", 4))
+	runtime.GOMAXPROCS(sc.Procs())
 	em(header(sc, expr))
 	eng := engine.New(run.EngineOpts(sc, "default", true, nil))
 	st := run.Store(sc)
